@@ -146,6 +146,14 @@ example : (run Skeleton.current init
               (step Skeleton.current s (.waiterGetsCtx 0)).isSome) = some true := by
   decide
 
+/-- M2's `callReceive` has two outcomes only — registered, or refused because the table is closed — and
+    the stub treats every `Receive` error as fatal for the link.  That is sound only if `Receive` never
+    fails for a reason that belongs to ONE call (such as that call's context being done already): the
+    only error it returns is `ErrClosed`, under the closed check (checked against the regenerated
+    skeleton).  Otherwise cancelling one call early would end the link for every other call. -/
+theorem C04_receive_fails_only_when_closed :
+    Skeleton.current.bcReceiveErrorsOnlyClosed = true ∧ Skeleton.current.bcReceiveRefusesWhenClosed = true := by decide
+
 end Panrpc.Ep
 
 #print axioms Panrpc.Ep.C04_only_ctx_error
@@ -157,3 +165,4 @@ end Panrpc.Ep
 #print axioms Panrpc.Ep.C04_late_response_inert
 #print axioms Panrpc.Ep.C04_others_unaffected
 #print axioms Panrpc.Ep.C04_publishers_touch_no_call
+#print axioms Panrpc.Ep.C04_receive_fails_only_when_closed
